@@ -34,7 +34,8 @@ CAL_CONFIGS = [
 
 CASE_LINE_SAMPLE = 0.3
 GEN_BFS = dict(MAXDEPTH=2, MAXWIDTH=2, MAXSIZE=4, MAXDIRS=0, MAXALIAS=0, MAXFRAGS=0, ORDERED=1)
-GEN_BFS_T = dict(MAXDEPTH=2, MAXWIDTH=2, MAXSIZE=5, MAXDIRS=1, MAXALIAS=1, MAXFRAGS=1, ORDERED=1)
+GEN_BFS_T = dict(MAXDEPTH=2, MAXWIDTH=2, MAXSIZE=4, MAXDIRS=1, MAXALIAS=0, MAXFRAGS=0, ORDERED=1)   # 53 291 cases (measured)
+GEN_BFS_F = dict(MAXDEPTH=2, MAXWIDTH=2, MAXSIZE=5, MAXDIRS=0, MAXALIAS=0, MAXFRAGS=1, ORDERED=1)   # 56 477 cases (measured)
 GEN_SIM = dict(MAXDEPTH=3, MAXWIDTH=3, MAXSIZE=9, MAXDIRS=2, MAXALIAS=2, MAXFRAGS=2, ORDERED=0)
 GEN_SIM_DEEP = dict(MAXDEPTH=4, MAXWIDTH=2, MAXSIZE=10, MAXDIRS=1, MAXALIAS=1, MAXFRAGS=2, ORDERED=0)
 
@@ -157,10 +158,11 @@ def generate(ctx, entries, quick):
     """returns {entry name: {"bfs": {id: case}, "sim": {id: case}}} de-duplicated by case id.
     One TLC run per mode; the catalog entry is chosen by the initial state (C01_ENTRY=0)."""
     jobs = [("bfs", dict(workers=6, env=gen_env(0, GEN_BFS if quick else GEN_BFS_T), timeout=2400, deadlock=False, tag="gen-bfs")),
-            ("sim", dict(workers=1, env=gen_env(0, GEN_SIM), simulate=(260 if quick else 4000) * len(entries), depth=80, seed=ctx.seed,
+            ("sim", dict(workers=1, env=gen_env(0, GEN_SIM), simulate=(260 if quick else 2000) * len(entries), depth=80, seed=ctx.seed,
                          timeout=2400, deadlock=False, tag="gen-sim"))]
     if not quick:
-        jobs.append(("sim", dict(workers=1, env=gen_env(0, GEN_SIM_DEEP), simulate=2000 * len(entries), depth=80, seed=ctx.seed + 1000,
+        jobs.append(("bfs", dict(workers=6, env=gen_env(0, GEN_BFS_F), timeout=2400, deadlock=False, tag="gen-bfs-fragments")))
+        jobs.append(("sim", dict(workers=1, env=gen_env(0, GEN_SIM_DEEP), simulate=1000 * len(entries), depth=80, seed=ctx.seed + 1000,
                                  timeout=2400, deadlock=False, tag="gen-sim-deep")))
     out = {e["name"]: {"bfs": {}, "sim": {}} for e in entries}
 
@@ -172,7 +174,7 @@ def generate(ctx, entries, quick):
             raise lib.Inconclusive("generator failed (%s): %s" % (kind, r.error))
         return kind, r.printed
 
-    with concurrent.futures.ThreadPoolExecutor(max_workers=3) as ex:
+    with concurrent.futures.ThreadPoolExecutor(max_workers=4) as ex:
         for kind, printed in ex.map(one, jobs):
             for c in printed:
                 c["id"] = lib.sha([c["entry"], c["doc"], c["vars"]])[:14]
@@ -205,6 +207,70 @@ def validate_chunk(ctx, lines, n):
     if stuck:
         raise lib.Inconclusive("trace validation did not consume all lines: %s" % stuck)
     return bad
+
+
+def corrupt_value(v):
+    """change the first scalar leaf of a tagged value; returns True if something was changed"""
+    t = v["t"]
+    if t == "s":
+        v["v"] = v["v"] + "#"
+        return True
+    if t == "i":
+        v["v"] = v["v"] + 1
+        return True
+    if t in ("o", "l"):
+        for x in v["v"]:
+            if corrupt_value(x):
+                return True
+    return False
+
+
+def validator_self_test(ctx, lines):
+    """binding demonstration / vacuity guard, run on every invocation: three REAL recorded lines are corrupted on purpose
+    (response value changed; key field removed from a representation; simulator answer changed) and TLC must reject
+    exactly those, with the matching verdict component."""
+    control = []
+    expect = {}
+    c_line = next((l for l in lines if l["k"] == "c" and l["data"]["t"] == "o"), None)
+    if c_line is not None:
+        good = json.loads(json.dumps(c_line))
+        bad = json.loads(json.dumps(c_line))
+        if corrupt_value(bad["data"]):
+            control += [good, bad]
+            expect[len(control)] = ("c", 0)
+    x_rep = None
+    for l in lines:
+        if l["k"] == "x":
+            for b in l["vars"]:
+                if b["name"] == "representations" and b["val"]["t"] == "l" and b["val"]["v"] and len(b["val"]["v"][0]["k"]) >= 2:
+                    x_rep = l
+                    break
+        if x_rep:
+            break
+    if x_rep is not None:
+        bad = json.loads(json.dumps(x_rep))
+        for b in bad["vars"]:
+            if b["name"] == "representations":
+                rep = b["val"]["v"][0]
+                i = next(i for i, k in enumerate(rep["k"]) if k != "__typename")
+                del rep["k"][i]
+                del rep["v"][i]
+        control += [json.loads(json.dumps(x_rep)), bad]
+        expect[len(control)] = ("x", 0)
+    x_any = next((l for l in lines if l["k"] == "x" and l["data"]["t"] == "o"), None)
+    if x_any is not None:
+        bad = json.loads(json.dumps(x_any))
+        if corrupt_value(bad["data"]):
+            control += [bad]
+            expect[len(control)] = ("x", 1)
+    if len(expect) < 3:
+        return 0
+    got = dict(validate_chunk(ctx, control, 900))
+    for lineno, (kind, comp) in expect.items():
+        if lineno not in got or got[lineno][comp]:
+            raise lib.Inconclusive("validator self-test: corrupted line %d (%s) was NOT rejected by Trace_C01 — the validation pass is vacuous" % (lineno, kind))
+    # (an uncorrupted control line may itself be rejected when the code under test is broken: judged in the main pass)
+    return len(expect)
 
 
 def decide_and_validate(ctx, cases_by_id, results, entry_index, entries, quick, rng):
@@ -265,8 +331,8 @@ def decide_and_validate(ctx, cases_by_id, results, entry_index, entries, quick, 
         c = cases_by_id[r["id"]]
         e = entry_index[r["entry"]]
         # client observations: all of them were compared with the expectation TLC generated; TLC re-judges the recorded
-        # line itself for every flagged one and for a seed-selected sample (quick) / all (thorough)
-        if (r["id"], r["u"]) in flagged or not quick or rng.random() < CASE_LINE_SAMPLE:
+        # line itself for every flagged one and for a seed-selected sample (30 %)
+        if (r["id"], r["u"]) in flagged or rng.random() < CASE_LINE_SAMPLE:
             judged.add((r["id"], r["u"]))
             lines.append({"k": "c", "id": r["id"], "e": e, "u": r["u"] + 1, "sg": 0, "doc": c["doc"], "vars": c["vars"],
                           "data": r["data"], "err": r["hasErrors"]})
@@ -281,6 +347,8 @@ def decide_and_validate(ctx, cases_by_id, results, entry_index, entries, quick, 
             lines.append({"k": "x", "id": r["id"], "e": e, "u": r["u"] + 1, "sg": x["sg"] + 1, "doc": x["doc"], "vars": x["binds"],
                           "data": x["data"], "err": x["hasErr"]})
             meta.append(("x", r, x))
+    ok_lines = [lines[i] for i in range(len(lines)) if meta[i][0] == "x" or (meta[i][1]["id"], meta[i][1]["u"]) not in flagged]
+    ctx.coverage["validator_self_test_corruptions_rejected"] = validator_self_test(ctx, ok_lines)
     nchunks = max(1, min(4 if quick else 8, len(lines) // 300))
     order = list(range(len(lines)))
     chunks = [order[i::nchunks] for i in range(nchunks)]
@@ -390,11 +458,11 @@ def run(ctx):
         bfs = [c for c in bfs if c["id"] not in have]
         sim = [c for cid, c in g["sim"].items() if cid not in g["bfs"] and cid not in have]
         nb, ns = len(bfs), len(sim)
-        if quick:
-            rng.shuffle(bfs)
-            rng.shuffle(sim)
-            bfs = bfs[:190]
-            sim = sim[:190]
+        rng.shuffle(bfs)
+        rng.shuffle(sim)
+        cap = 190 if quick else 5000
+        bfs = bfs[:cap]
+        sim = sim[:cap]
         stats[e["name"]] = {"bfs_generated": nb, "sim_generated": ns, "replayed": len(bfs) + len(sim)}
         cases += bfs + sim
     ctx.log("cases: %s" % json.dumps(stats))
